@@ -59,11 +59,11 @@ func (g *c01Gen) lit() string {
 }
 
 const c01NSteps = 26
-const c01NSinks = 9
+const c01NSinks = 11
 
 var c01StepNames = []string{"let", "array-index", "hash-index", "userfn-identity", "gohelper-identity", "gohelper-typed", "concat-left", "concat-right",
 	"for-var", "if-block", "else-block", "helper-block", "contentFor-body", "contentOf-data", "partial-data", "partial-layout", "userfn-body", "userfn-param-body", "nested-array", "concat-with-trusted-right", "concat-with-trusted-left", "helper-with-HTML-parameter", "stored-into-[]template.HTML", "stored-into-map-of-template.HTML", "appended-to-[]template.HTML", "debug()"}
-var c01SinkNames = []string{"out", "if-return", "array-literal", "for-return", "hash-index-out", "let-then-out", "typed-strings-slice", "ifaces-slice", "for-over-typed-slice"}
+var c01SinkNames = []string{"out", "if-return", "array-literal", "for-return", "hash-index-out", "let-then-out", "typed-strings-slice", "ifaces-slice", "for-over-typed-slice", "helper-block-left-by-break", "helper-block-left-by-continue"}
 
 func (g *c01Gen) choose(n int) int {
 	if g.depthPos < len(g.forceSeq) && g.forceSeq[g.depthPos] >= 0 {
@@ -113,12 +113,17 @@ func (g *c01Gen) route(d int, expr string, v c01Val) (string, []c01Seg) {
 			return l1 + "<%= " + mk + "(" + expr + ") %>" + l2, []c01Seg{{lit: l1}, {val: &v}, {val: &v}, {lit: l2}}
 		case 7:
 			return l1 + "<%= mkifaces(" + expr + ") %>" + l2, []c01Seg{{lit: l1}, {val: &v}, {val: &v}, {lit: l2}}
-		default:
+		case 8:
 			mk, x := "mkstrs", g.id("e")
 			if v.trusted {
 				mk = "mkhtmls"
 			}
 			return l1 + "<%= for (" + x + ") in " + mk + "(" + expr + ") { %>[<%= " + x + " %>]<% } %>" + l2, []c01Seg{{lit: l1}, {lit: "["}, {val: &v}, {lit: "]["}, {val: &v}, {lit: "]"}, {lit: l2}}
+		case 9:
+			// what a helper's block has produced when a break ends it is output like any other
+			return l1 + "<%= for (q) in [1, 2] { %><%= cap() { %>(<%= " + expr + " %><% break %>never<% } %>never<% } %>" + l2, []c01Seg{{lit: l1}, {lit: "("}, {val: &v}, {lit: l2}}
+		default:
+			return l1 + "<%= for (q) in [1, 2] { %><%= cap() { %>(<%= " + expr + " %><% continue %>never<% } %>never<% } %>" + l2, []c01Seg{{lit: l1}, {lit: "("}, {val: &v}, {lit: "("}, {val: &v}, {lit: l2}}
 		}
 	}
 	k := g.choose(c01NSteps)
